@@ -12,7 +12,7 @@ pub fn info() -> PropInfo {
     PropInfo {
         id: "C09",
         level: "exploration",
-        rule: "proptest: library-issued credentials (one in five: signed by the harness as another issuer implementation would, nothing selectively disclosable; with key binding one in four: the KB-JWT replaced by a harness-made one whose own iat is years old, must-reject direction only) x exp in {absent, null, string, negative, now-10y..now-120s (int/float)} (must reject) or {now+1h..2100} (must accept) x nbf in {absent, past} (accept) or {now+120s..now+10y, instants at the edges of i32 / u32 / 2^53 / i64 / u64 as integer or float} (reject), exp also at those edges (accept), iat untouched / equal to nbf / equal to exp / absent / far future (no effect on the expectation), nbf kept visible (NoSD / Custom not listing it) x format x key binding x selection; instants are computed from the wall clock at execution, never within 120 s of a boundary; oracle: accept/reject table, accepted => claims == view. Every case is non-trivial (each has a defined expectation). Distinct: hash of the case JSON.",
+        rule: "proptest: library-issued credentials (one in five: signed by the harness as another issuer implementation would, nothing selectively disclosable; with key binding one in four: the KB-JWT replaced by a harness-made one whose own iat is years old, must-reject direction only) x exp in {absent, null, string, negative, now-10y..now-120s (int/float)} (must reject) or {now+1h..2100} (must accept) x nbf in {absent, past} (accept) or {now+120s..now+10y, instants at the edges of i32 / u32 / 2^53 / i64 / u64 as integer or float} (reject), exp also at those edges (accept), iat untouched / equal to nbf / equal to exp / absent / far future (no effect on the expectation), nbf kept visible (NoSD / Custom not listing it) x format x key binding x selection; instants are computed from the wall clock at execution, never within 120 s of a boundary; oracle: accept/reject table, accepted => claims == view. Every case is non-trivial (each has a defined expectation). Distinct: hash of the case JSON. Two cases in five: the harness owns the wall clock (preloaded clock shim, REALTIME only) and verifies the SAME presentation a second time in the same process — after exp (+180 s + 0..10 y) a credential accepted before must be rejected, after nbf (exp still an hour away, no key binding) a credential refused before must be accepted with the same claims.",
         assumptions: &["|harness clock - verifier clock| < 60 s within one case (same process)", "void when issuance / presentation fails"],
         needs_mock: false,
         rounds: 4,
@@ -46,8 +46,10 @@ pub fn strategy() -> BoxedStrategy<Case> {
         nbf,
         choices_strategy(),
         prop::option::weighted(0.6, (aud_nonce_strategy(), aud_nonce_strategy())),
+        // two cases in five are verified a second time after the harness has moved the wall clock
+        prop::option::weighted(0.4, prop_oneof![0u32..60, 0u32..86_400, 0u32..(TEN_YEARS as u32)]),
     )
-        .prop_map(|(mut issue, exp, nbf, ch, kb)| {
+        .prop_map(|(mut issue, exp, nbf, ch, kb, clock_extra)| {
             // nested claims that merely *look* temporal must never influence the decision: a
             // nested nbf far in the future, a nested exp long past (user data, not JWT claims)
             if ch.first().map(|c| c % 5 == 0).unwrap_or(false) {
@@ -79,7 +81,7 @@ pub fn strategy() -> BoxedStrategy<Case> {
                 6 => 5,
                 _ => 0,
             };
-            C09Case { issue, exp, nbf, selection, kb, iat_mode, foreign_issuer: ch.get(2).map(|c| c % 5 == 0).unwrap_or(false), backdated_kb: ch.get(3).map(|c| c % 4 == 0).unwrap_or(false) }
+            C09Case { clock_extra, issue, exp, nbf, selection, kb, iat_mode, foreign_issuer: ch.get(2).map(|c| c % 5 == 0).unwrap_or(false), backdated_kb: ch.get(3).map(|c| c % 4 == 0).unwrap_or(false) }
         })
         .boxed()
 }
